@@ -628,6 +628,57 @@ theorem decode_false_bom :
 
 example : utf16Scalars [0xD83D, 0xDE00, 0x41] = [0x1F600, 0x41] := by decide
 
+/-! ### the property, end to end on the model (under the guards) -/
+
+theorem foldl_code_lt (bs : List Nat) : ∀ acc, (∀ b ∈ bs, b < 256) →
+    bs.foldl (fun acc b => acc * 256 + b) acc < (acc + 1) * 256 ^ bs.length := by
+  induction bs with
+  | nil => intro acc _; simp
+  | cons b bs ih =>
+    intro acc h
+    have hb : b < 256 := h b List.mem_cons_self
+    have := ih (acc * 256 + b) (fun x hx => h x (List.mem_cons_of_mem _ hx))
+    simp only [List.foldl_cons, List.length_cons]
+    have h2 : (acc * 256 + b + 1) * 256 ^ bs.length ≤ ((acc + 1) * 256) * 256 ^ bs.length :=
+      Nat.mul_le_mul_right _ (by omega)
+    have h3 : ((acc + 1) * 256) * 256 ^ bs.length = (acc + 1) * 256 ^ (bs.length + 1) := by
+      rw [Nat.pow_succ, Nat.mul_assoc, Nat.mul_comm 256]
+    omega
+
+theorem codeVal_lt_u32 (bs : List Nat) (hb : ∀ b ∈ bs, b < 256) (hl : bs.length ≤ 4) : codeVal bs < U32 := by
+  have h := foldl_code_lt bs 0 hb
+  have h2 : 256 ^ bs.length ≤ 256 ^ 4 := Nat.pow_le_pow_right (by omega) hl
+  unfold codeVal U32
+  omega
+
+/-- a code (as bytes) the CMap maps to `v`, none of whose proper prefixes is mapped -/
+def DefinedCode (ds : List Def) (bs v : List Nat) : Prop :=
+  bs ≠ [] ∧ bs.length ≤ 4 ∧ (∀ b ∈ bs, b < 256) ∧
+  (∀ k, 0 < k → k < bs.length → defines ds (codeVal (bs.take k)) k = none) ∧
+  defines ds (codeVal bs) bs.length = some v
+
+/-- **cmap_decode_partial** — the property on the model, under the guards: for every well-formed
+CMap whose non-single definitions touch nothing, and every byte string (any length) made of mapped,
+prefix-free codes, `from_sections` succeeds and `bytes_to_string`'s loop produces exactly the
+concatenation of the targets the CMap defines. -/
+theorem cmap_decode_partial (ss : List Section)
+    (hwf : ∀ d ∈ defsOf ss, d.wf) (hsep : separated (defsOf ss) = true)
+    (codes : List (List Nat × List Nat)) (hcodes : ∀ p ∈ codes, DefinedCode (defsOf ss) p.1 p.2) :
+    ∃ m, fromSections ss = some m ∧ bytesToUnits m (codes.flatMap (·.1)) = .ok (codes.flatMap (·.2)) := by
+  obtain ⟨m, hm, _⟩ := cmap_get_partial ss hwf hsep 0 0 (by unfold U32; omega)
+  refine ⟨m, hm, segment_exact m codes ?_⟩
+  intro p hp
+  obtain ⟨h1, h2, h3, h4, h5⟩ := hcodes p hp
+  have hget : ∀ c l, c < U32 → get m c l = .ok (defines (defsOf ss) c l) := by
+    intro c l hc
+    obtain ⟨m', hm', hg⟩ := cmap_get_partial ss hwf hsep c l hc
+    rw [hm] at hm'
+    rw [Option.some.inj hm']; exact hg
+  refine ⟨h1, h2, ?_, ?_⟩
+  · intro k hk1 hk2
+    rw [hget _ _ (codeVal_lt_u32 _ (fun b hb => h3 b (List.mem_of_mem_take hb)) (by simp; omega)), h4 k hk1 hk2]
+  · rw [hget _ _ (codeVal_lt_u32 _ h3 h2), h5]
+
 /-- the constants regenerated from the source are the documented ones: unmapped codes become
 U+FFFD, codes have 1 to 4 bytes, a target string has 1 to 256 UTF-16 units -/
 theorem cmap_constants_documented :
